@@ -453,7 +453,18 @@ class TMGRSchedulingComponent(rpu.ClientComponent):
                     # the task to data staging
                     pilot = self._pilots.get(pid, {}).get('pilot')
                     if pilot:
-                        self._assign_pilot(task, pilot)
+                        try:
+                            self._assign_pilot(task, pilot)
+                        except Exception as e:
+                            # fail this task only, not the whole bulk
+                            self._log.exception('early binding failed: %s', uid)
+                            task['exception']        = repr(e)
+                            task['exception_detail'] = \
+                                             '\n'.join(ru.get_exception_trace())
+                            self.advance(task, rps.FAILED, publish=True,
+                                                           push=False)
+                            continue
+
                         self.advance(task, rps.TMGR_STAGING_INPUT_PENDING,
                                      publish=True, push=True)
 
